@@ -19,10 +19,17 @@ CONSTANTS CliChunks,     \* sequence of chunks the client sends (each a sequence
           Recheck,       \* TRUE: status is re-read under the lock before parking (the real code)
           FlushFirst     \* TRUE: the worker stores the new status after draining the queues (the real code)
 
+(* protocol items of round 1; round 2 (a second transfer through the same relay) uses x - 10 *)
 ACT == -1
 CFG == -2
 TRIG == -3
 END == -4
+FAIL == -5        \* the FAIL line the relay itself writes to both sides when a handshake fails
+BADACT == -6      \* an ACT line that cannot be decoded
+BADCFG == -7      \* a CFG line that cannot be decoded
+K(x) == IF x <= -11 THEN x + 10 ELSE x          \* kind of a protocol item, whatever its round
+R(x) == IF x <= -11 THEN 2 ELSE 1               \* its round
+T(k, r) == k - 10 * (r - 1)
 
 VARIABLES status, lock, inQ, outQ, inRest, outRest, sin, cout, junk,
           fedC, fedS,          \* everything fed so far (history)
@@ -30,11 +37,14 @@ VARIABLES status, lock, inQ, outQ, inRest, outRest, sin, cout, junk,
           pcI, bufI, stI,      \* In: pc, chunk in hand, status it loaded
           pcO, bufO, stO,      \* Out
           pcW,                 \* worker
+          wtok, werr,          \* worker: the line it has just read, whether the handshake failed
           confirm              \* the ACT of this handshake confirms the transfer
 
 vars == <<status, lock, inQ, outQ, inRest, outRest, sin, cout, junk, fedC, fedS, nIn, nOut, pcI, bufI, stI,
-          pcO, bufO, stO, pcW, confirm>>
+          pcO, bufO, stO, pcW, wtok, werr, confirm>>
 
+HasK(s, ks) == \E i \in 1..Len(s) : K(s[i]) \in ks
+IdxK(s, ks) == CHOOSE i \in 1..Len(s) : K(s[i]) \in ks /\ \A j \in 1..(i - 1) : K(s[j]) \notin ks
 Has(s, x) == \E i \in 1..Len(s) : s[i] = x
 Idx(s, x) == CHOOSE i \in 1..Len(s) : s[i] = x
 Flat(ss) == FoldLeft(LAMBDA a, c : a \o c, <<>>, ss)
@@ -42,79 +52,79 @@ Flat(ss) == FoldLeft(LAMBDA a, c : a \o c, <<>>, ss)
 Init ==
     /\ status = "S" /\ lock = "free" /\ inQ = <<>> /\ outQ = <<>> /\ inRest = <<>> /\ outRest = <<>>
     /\ sin = <<>> /\ cout = <<>> /\ junk = {} /\ fedC = <<>> /\ fedS = <<>> /\ nIn = 0 /\ nOut = 0
-    /\ pcI = "read" /\ bufI = <<>> /\ stI = "S" /\ pcO = "read" /\ bufO = <<>> /\ stO = "S" /\ pcW = "off"
+    /\ pcI = "read" /\ bufI = <<>> /\ stI = "S" /\ pcO = "read" /\ bufO = <<>> /\ stO = "S" /\ pcW = "off" /\ wtok = 0 /\ werr = FALSE
     /\ confirm = Confirm
 
 (* ---- In: wrapInput ---- *)
 InRead(c) ==   \* clientIn.Read returns a chunk
     /\ pcI = "read"
     /\ bufI' = c /\ nIn' = nIn + 1 /\ fedC' = fedC \o c /\ pcI' = "load"
-    /\ UNCHANGED <<status, lock, inQ, outQ, inRest, outRest, sin, cout, junk, fedS, nOut, stI, pcO, bufO, stO, pcW, confirm>>
+    /\ UNCHANGED <<status, lock, inQ, outQ, inRest, outRest, sin, cout, junk, fedS, nOut, stI, pcO, bufO, stO, pcW, wtok, werr, confirm>>
 
 InLoad ==      \* status := relayStatus.Load()
     /\ pcI = "load"
     /\ stI' = status /\ pcI' = IF status = "H" THEN "lock" ELSE "fwd"
-    /\ UNCHANGED <<status, lock, inQ, outQ, inRest, outRest, sin, cout, junk, fedC, fedS, nIn, nOut, bufI, pcO, bufO, stO, pcW, confirm>>
+    /\ UNCHANGED <<status, lock, inQ, outQ, inRest, outRest, sin, cout, junk, fedC, fedS, nIn, nOut, bufI, pcO, bufO, stO, pcW, wtok, werr, confirm>>
 
 InPark ==      \* addHandshakeBuffer: Lock; re-load; park or give up; Unlock  (one critical section)
     /\ pcI = "lock" /\ lock = "free"
     /\ IF ~Recheck \/ status = "H"
        THEN /\ inQ' = Append(inQ, bufI) /\ bufI' = <<>> /\ pcI' = "read" /\ stI' = stI
        ELSE /\ stI' = status /\ pcI' = "fwd" /\ UNCHANGED <<inQ, bufI>>
-    /\ UNCHANGED <<status, lock, outQ, inRest, outRest, sin, cout, junk, fedC, fedS, nIn, nOut, pcO, bufO, stO, pcW, confirm>>
+    /\ UNCHANGED <<status, lock, outQ, inRest, outRest, sin, cout, junk, fedC, fedS, nIn, nOut, pcO, bufO, stO, pcW, wtok, werr, confirm>>
 
 InFwd ==       \* osStdinChan <- buf
     /\ pcI = "fwd"
     /\ sin' = sin \o bufI /\ bufI' = <<>>
-    /\ pcI' = IF stI = "T" /\ Has(bufI, END) THEN "mark" ELSE "read"
-    /\ UNCHANGED <<status, lock, inQ, outQ, inRest, outRest, cout, junk, fedC, fedS, nIn, nOut, stI, pcO, bufO, stO, pcW, confirm>>
+    /\ pcI' = IF stI = "T" /\ HasK(bufI, {END}) THEN "mark" ELSE "read"
+    /\ UNCHANGED <<status, lock, inQ, outQ, inRest, outRest, cout, junk, fedC, fedS, nIn, nOut, stI, pcO, bufO, stO, pcW, wtok, werr, confirm>>
 
 InMark ==      \* end marker seen while the loaded status was transferring: resetToStandby (a CAS)
     /\ pcI = "mark"
     /\ status' = (IF status = "T" THEN "S" ELSE status) /\ pcI' = "read"
-    /\ UNCHANGED <<lock, inQ, outQ, inRest, outRest, sin, cout, junk, fedC, fedS, nIn, nOut, bufI, stI, pcO, bufO, stO, pcW, confirm>>
+    /\ UNCHANGED <<lock, inQ, outQ, inRest, outRest, sin, cout, junk, fedC, fedS, nIn, nOut, bufI, stI, pcO, bufO, stO, pcW, wtok, werr, confirm>>
 
 (* ---- Out: wrapOutput ---- *)
 OutRead(c) ==
     /\ pcO = "read"
     /\ bufO' = c /\ nOut' = nOut + 1 /\ fedS' = fedS \o c /\ pcO' = "load"
-    /\ UNCHANGED <<status, lock, inQ, outQ, inRest, outRest, sin, cout, junk, fedC, nIn, pcI, bufI, stI, stO, pcW, confirm>>
+    /\ UNCHANGED <<status, lock, inQ, outQ, inRest, outRest, sin, cout, junk, fedC, nIn, pcI, bufI, stI, stO, pcW, wtok, werr, confirm>>
 
 OutLoad ==
     /\ pcO = "load"
     /\ stO' = status /\ pcO' = IF status = "H" THEN "lock" ELSE "fwd"
-    /\ UNCHANGED <<status, lock, inQ, outQ, inRest, outRest, sin, cout, junk, fedC, fedS, nIn, nOut, pcI, bufI, stI, bufO, pcW, confirm>>
+    /\ UNCHANGED <<status, lock, inQ, outQ, inRest, outRest, sin, cout, junk, fedC, fedS, nIn, nOut, pcI, bufI, stI, bufO, pcW, wtok, werr, confirm>>
 
 OutPark ==
     /\ pcO = "lock" /\ lock = "free"
     /\ IF ~Recheck \/ status = "H"
        THEN /\ outQ' = Append(outQ, bufO) /\ bufO' = <<>> /\ pcO' = "read" /\ stO' = stO
        ELSE /\ stO' = status /\ pcO' = "fwd" /\ UNCHANGED <<outQ, bufO>>
-    /\ UNCHANGED <<status, lock, inQ, inRest, outRest, sin, cout, junk, fedC, fedS, nIn, nOut, pcI, bufI, stI, pcW, confirm>>
+    /\ UNCHANGED <<status, lock, inQ, inRest, outRest, sin, cout, junk, fedC, fedS, nIn, nOut, pcI, bufI, stI, pcW, wtok, werr, confirm>>
 
 OutFwd ==      \* transferring: bypass (+ end markers); otherwise run the detector: a trigger goes to OutTrigger
     /\ pcO = "fwd"
-    /\ IF stO # "T" /\ Has(bufO, TRIG)
+    /\ IF stO # "T" /\ HasK(bufO, {TRIG})
        THEN pcO' = "trig" /\ UNCHANGED <<cout, bufO>>
        ELSE /\ cout' = cout \o bufO /\ bufO' = <<>>
-            /\ pcO' = IF stO = "T" /\ Has(bufO, END) THEN "mark" ELSE "read"
-    /\ UNCHANGED <<status, lock, inQ, outQ, inRest, outRest, sin, junk, fedC, fedS, nIn, nOut, pcI, bufI, stI, stO, pcW, confirm>>
+            /\ pcO' = IF stO = "T" /\ HasK(bufO, {END}) THEN "mark" ELSE "read"
+    /\ UNCHANGED <<status, lock, inQ, outQ, inRest, outRest, sin, junk, fedC, fedS, nIn, nOut, pcI, bufI, stI, stO, pcW, wtok, werr, confirm>>
 
 OutStoreH ==   \* relayStatus.Store(handshaking)  ("store status before send to client")
     /\ pcO = "trig"
     /\ status' = "H" /\ pcO' = "trig2"
-    /\ UNCHANGED <<lock, inQ, outQ, inRest, outRest, sin, cout, junk, fedC, fedS, nIn, nOut, pcI, bufI, stI, bufO, stO, pcW, confirm>>
+    /\ UNCHANGED <<lock, inQ, outQ, inRest, outRest, sin, cout, junk, fedC, fedS, nIn, nOut, pcI, bufI, stI, bufO, stO, pcW, wtok, werr, confirm>>
 
 OutTrigger ==  \* go handshake(); the trigger chunk is sent on to the client
-    /\ pcO = "trig2"
-    /\ pcW' = "recvAct"
+    /\ pcO = "trig2" /\ pcW \in {"off", "done"}
+    /\ pcW' = "recvAct" /\ werr' = FALSE /\ wtok' = 0
     /\ cout' = cout \o bufO /\ bufO' = <<>> /\ pcO' = "read"
     /\ UNCHANGED <<status, lock, inQ, outQ, inRest, outRest, sin, junk, fedC, fedS, nIn, nOut, pcI, bufI, stI, stO, confirm>>
 
 OutMark ==
     /\ pcO = "mark"
     /\ status' = (IF status = "T" THEN "S" ELSE status) /\ pcO' = "read"
-    /\ UNCHANGED <<lock, inQ, outQ, inRest, outRest, sin, cout, junk, fedC, fedS, nIn, nOut, pcI, bufI, stI, bufO, stO, pcW, confirm>>
+    /\ UNCHANGED <<lock, inQ, outQ, inRest, outRest, sin, cout, junk, fedC, fedS, nIn, nOut, pcI, bufI, stI, bufO, stO, pcW, wtok, werr, confirm>>
 
 (* ---- Wk: handshake ---- *)
 (* recvAction: readLine(mayHasJunk) on stdinBuffer: chunks are consumed until the ACT line;     *)
@@ -122,33 +132,47 @@ OutMark ==
 WkRecvAct ==
     /\ pcW = "recvAct" /\ inQ # <<>>
     /\ LET c == Head(inQ) IN
-       IF Has(c, ACT)
-       THEN /\ junk' = junk \cup {c[i] : i \in 1..(Idx(c, ACT) - 1)}
-            /\ inRest' = SubSeq(c, Idx(c, ACT) + 1, Len(c)) /\ pcW' = "sendAct"
-       ELSE /\ junk' = junk \cup {c[i] : i \in 1..Len(c)} /\ inRest' = inRest /\ pcW' = pcW
+       IF HasK(c, {ACT, BADACT})
+       THEN LET i == IdxK(c, {ACT, BADACT}) IN
+            /\ inRest' = SubSeq(c, i + 1, Len(c)) /\ wtok' = c[i]
+            /\ IF K(c[i]) = ACT THEN pcW' = "sendAct" /\ werr' = werr /\ junk' = junk \cup {c[j] : j \in 1..(i - 1)}
+                               ELSE pcW' = "errC" /\ werr' = TRUE /\ junk' = junk \cup {c[j] : j \in 1..i}
+       ELSE /\ junk' = junk \cup {c[i] : i \in 1..Len(c)} /\ inRest' = inRest /\ pcW' = pcW /\ UNCHANGED <<wtok, werr>>
     /\ inQ' = Tail(inQ)
     /\ UNCHANGED <<status, lock, outQ, outRest, sin, cout, fedC, fedS, nIn, nOut, pcI, bufI, stI, pcO, bufO, stO, confirm>>
 
 WkSendAct ==    \* the narrowed ACT goes to the server
     /\ pcW = "sendAct"
-    /\ sin' = Append(sin, ACT)
+    /\ sin' = Append(sin, wtok)
     /\ pcW' = IF confirm THEN "recvCfg" ELSE "flush"
-    /\ UNCHANGED <<status, lock, inQ, outQ, inRest, outRest, cout, junk, fedC, fedS, nIn, nOut, pcI, bufI, stI, pcO, bufO, stO, confirm>>
+    /\ UNCHANGED <<status, lock, inQ, outQ, inRest, outRest, cout, junk, fedC, fedS, nIn, nOut, pcI, bufI, stI, pcO, bufO, stO, wtok, werr, confirm>>
 
 WkRecvCfg ==
     /\ pcW = "recvCfg" /\ outQ # <<>>
     /\ LET c == Head(outQ) IN
-       IF Has(c, CFG)
-       THEN /\ junk' = junk \cup {c[i] : i \in 1..(Idx(c, CFG) - 1)}
-            /\ outRest' = SubSeq(c, Idx(c, CFG) + 1, Len(c)) /\ pcW' = "sendCfg"
-       ELSE /\ junk' = junk \cup {c[i] : i \in 1..Len(c)} /\ outRest' = outRest /\ pcW' = pcW
+       IF HasK(c, {CFG, BADCFG})
+       THEN LET i == IdxK(c, {CFG, BADCFG}) IN
+            /\ outRest' = SubSeq(c, i + 1, Len(c)) /\ wtok' = c[i]
+            /\ IF K(c[i]) = CFG THEN pcW' = "sendCfg" /\ werr' = werr /\ junk' = junk \cup {c[j] : j \in 1..(i - 1)}
+                               ELSE pcW' = "errC" /\ werr' = TRUE /\ junk' = junk \cup {c[j] : j \in 1..i}
+       ELSE /\ junk' = junk \cup {c[i] : i \in 1..Len(c)} /\ outRest' = outRest /\ pcW' = pcW /\ UNCHANGED <<wtok, werr>>
     /\ outQ' = Tail(outQ)
     /\ UNCHANGED <<status, lock, inQ, inRest, sin, cout, fedC, fedS, nIn, nOut, pcI, bufI, stI, pcO, bufO, stO, confirm>>
 
 WkSendCfg ==
     /\ pcW = "sendCfg"
-    /\ cout' = Append(cout, CFG) /\ pcW' = "flush"
-    /\ UNCHANGED <<status, lock, inQ, outQ, inRest, outRest, sin, junk, fedC, fedS, nIn, nOut, pcI, bufI, stI, pcO, bufO, stO, confirm>>
+    /\ cout' = Append(cout, wtok) /\ pcW' = "flush"
+    /\ UNCHANGED <<status, lock, inQ, outQ, inRest, outRest, sin, junk, fedC, fedS, nIn, nOut, pcI, bufI, stI, pcO, bufO, stO, wtok, werr, confirm>>
+
+(* sendError: a FAIL line to the client, then one to the server; then the flush of a failed handshake *)
+WkErrC ==
+    /\ pcW = "errC"
+    /\ cout' = Append(cout, FAIL) /\ pcW' = "errS"
+    /\ UNCHANGED <<status, lock, inQ, outQ, inRest, outRest, sin, junk, fedC, fedS, nIn, nOut, pcI, bufI, stI, pcO, bufO, stO, wtok, werr, confirm>>
+WkErrS ==
+    /\ pcW = "errS"
+    /\ sin' = Append(sin, FAIL) /\ pcW' = "flush"
+    /\ UNCHANGED <<status, lock, inQ, outQ, inRest, outRest, cout, junk, fedC, fedS, nIn, nOut, pcI, bufI, stI, pcO, bufO, stO, wtok, werr, confirm>>
 
 (* flushHandshakeBuffer: Lock; pop everything (the partially read chunk first) to the writers;  *)
 (* store the new status; Unlock.                                                              *)
@@ -160,39 +184,48 @@ WkFlushLock ==
             /\ inQ' = <<>> /\ outQ' = <<>> /\ inRest' = <<>> /\ outRest' = <<>>
        ELSE UNCHANGED <<sin, cout, inQ, outQ, inRest, outRest>>
     /\ pcW' = "store"
-    /\ UNCHANGED <<status, junk, fedC, fedS, nIn, nOut, pcI, bufI, stI, pcO, bufO, stO, confirm>>
+    /\ UNCHANGED <<status, junk, fedC, fedS, nIn, nOut, pcI, bufI, stI, pcO, bufO, stO, wtok, werr, confirm>>
 
 WkStore ==      \* relayStatus.Store(transferring) / resetToStandby(handshaking)
     /\ pcW = "store"
-    /\ status' = (IF confirm THEN "T" ELSE "S")
+    /\ status' = (IF confirm /\ ~werr THEN "T" ELSE "S")
     /\ pcW' = IF FlushFirst THEN "unlock" ELSE "flush2"
-    /\ UNCHANGED <<lock, inQ, outQ, inRest, outRest, sin, cout, junk, fedC, fedS, nIn, nOut, pcI, bufI, stI, pcO, bufO, stO, confirm>>
+    /\ UNCHANGED <<lock, inQ, outQ, inRest, outRest, sin, cout, junk, fedC, fedS, nIn, nOut, pcI, bufI, stI, pcO, bufO, stO, wtok, werr, confirm>>
 
 WkFlush2 ==     \* variant FlushFirst = FALSE: the queues are drained after the status was stored and the lock released
     /\ pcW = "flush2"
     /\ lock' = "free"
     /\ pcW' = "flush3"
-    /\ UNCHANGED <<status, inQ, outQ, inRest, outRest, sin, cout, junk, fedC, fedS, nIn, nOut, pcI, bufI, stI, pcO, bufO, stO, confirm>>
+    /\ UNCHANGED <<status, inQ, outQ, inRest, outRest, sin, cout, junk, fedC, fedS, nIn, nOut, pcI, bufI, stI, pcO, bufO, stO, wtok, werr, confirm>>
 
 WkFlush3 ==
     /\ pcW = "flush3" /\ lock = "free"
     /\ sin' = sin \o inRest \o Flat(inQ) /\ cout' = cout \o outRest \o Flat(outQ)
     /\ inQ' = <<>> /\ outQ' = <<>> /\ inRest' = <<>> /\ outRest' = <<>> /\ pcW' = "done"
-    /\ UNCHANGED <<status, lock, junk, fedC, fedS, nIn, nOut, pcI, bufI, stI, pcO, bufO, stO, confirm>>
+    /\ UNCHANGED <<status, lock, junk, fedC, fedS, nIn, nOut, pcI, bufI, stI, pcO, bufO, stO, wtok, werr, confirm>>
 
 WkUnlock ==
     /\ pcW = "unlock"
     /\ lock' = "free" /\ pcW' = "done"
-    /\ UNCHANGED <<status, inQ, outQ, inRest, outRest, sin, cout, junk, fedC, fedS, nIn, nOut, pcI, bufI, stI, pcO, bufO, stO, confirm>>
+    /\ UNCHANGED <<status, inQ, outQ, inRest, outRest, sin, cout, junk, fedC, fedS, nIn, nOut, pcI, bufI, stI, pcO, bufO, stO, wtok, werr, confirm>>
 
 (* ---- environment: the next chunk arrives (causality: ACT only after the trigger was shown to   *)
 (*      the client, CFG only after the rewritten ACT reached the server) ---- *)
-CliReady == nIn < Len(CliChunks) /\ (Has(CliChunks[nIn + 1], ACT) => Has(cout, TRIG))
-SrvReady == nOut < Len(SrvChunks) /\ (Has(SrvChunks[nOut + 1], CFG) => Has(sin, ACT))
+Needs(c, ks, where, k) ==      \* every item of kind ks in chunk c has its cause of kind k (same round) in `where`
+    \A i \in 1..Len(c) : K(c[i]) \in ks => Has(where, T(k, R(c[i])))
+CliReady == /\ nIn < Len(CliChunks)
+            /\ Needs(CliChunks[nIn + 1], {ACT, BADACT}, cout, TRIG)
+            /\ Needs(CliChunks[nIn + 1], {END}, cout, CFG)
+            \* (the client ends a transfer only after replies of the server, which flow only once the flush is done)
+            /\ (HasK(CliChunks[nIn + 1], {END}) => pcW = "done")
+SrvReady == /\ nOut < Len(SrvChunks)
+            /\ Needs(SrvChunks[nOut + 1], {CFG, BADCFG}, sin, ACT)
+            /\ \A i \in 1..Len(SrvChunks[nOut + 1]) :      \* a second trigger only after the first transfer ended
+                  (K(SrvChunks[nOut + 1][i]) = TRIG /\ R(SrvChunks[nOut + 1][i]) = 2) => status = "S" /\ pcW \in {"off", "done"} /\ nIn > 0
 
 Next == (CliReady /\ InRead(CliChunks[nIn + 1])) \/ InLoad \/ InPark \/ InFwd \/ InMark
         \/ (SrvReady /\ OutRead(SrvChunks[nOut + 1])) \/ OutLoad \/ OutPark \/ OutFwd \/ OutStoreH \/ OutTrigger \/ OutMark
-        \/ WkRecvAct \/ WkSendAct \/ WkRecvCfg \/ WkSendCfg
+        \/ WkRecvAct \/ WkSendAct \/ WkRecvCfg \/ WkSendCfg \/ WkErrC \/ WkErrS
         \/ WkFlushLock \/ WkStore \/ WkUnlock \/ WkFlush2 \/ WkFlush3
 
 Spec == Init /\ [][Next]_vars /\ WF_vars(Next)
@@ -206,9 +239,10 @@ SubsequenceOf(a, b) ==      \* a is b with some elements left out (unique tokens
     /\ \A i, j \in 1..Len(a) : i < j => Idx(b, a[i]) < Idx(b, a[j])
 
 (* C13: nothing is duplicated, reordered or delivered to the wrong side *)
+NoGen(s) == SelectSeq(s, LAMBDA x : x # FAIL)          \* without what the relay itself generated
 Order ==
-    /\ NoDup(sin) /\ NoDup(cout)
-    /\ SubsequenceOf(sin, FedC) /\ SubsequenceOf(cout, FedS)
+    /\ NoDup(NoGen(sin)) /\ NoDup(NoGen(cout))
+    /\ SubsequenceOf(NoGen(sin), FedC) /\ SubsequenceOf(NoGen(cout), FedS)
 
 (* C13: nothing is lost: when everything has been fed and every activity is idle, every token *)
 (* except the recorded junk has been delivered                                                *)
@@ -224,7 +258,7 @@ ParkOnlyWhileHandshaking == (inQ # <<>> \/ outQ # <<>>) => (status = "H" \/ pcW 
 
 (* junk is only what arrived while handshaking and in front of the line *)
 JunkIsBeforeLine ==
-    \A x \in junk : x \in Nat
+    \A x \in junk : x \in Nat \/ K(x) \in {BADACT, BADCFG}
 
 Progress == <>[]Quiet
 =============================================================================
